@@ -23,6 +23,7 @@ delivered; the residual buffers are equal at the end.
 """
 import bisect
 import logging
+import signal
 import zlib
 
 from harness.core.prng import Rng, split_at
@@ -54,6 +55,19 @@ def varint(n):
             return bytes(out)
         out.append((n & 0x7F) | 0x80)
         n >>= 7
+
+
+class Hang(BaseException):
+    """Raised by the watchdog inside a receive callback that does not return (BaseException:
+    the event channel swallows `Exception` inside its loop)."""
+
+
+WATCHDOG_S = 5.0
+HANGS = {}          # target -> receive callbacks that did not return (after 3 the target is skipped)
+
+
+def _on_alarm(_sig, _frame):
+    raise Hang()
 
 
 class Peer:
@@ -616,10 +630,18 @@ class Session:
     def feed(self, chunk):
         self.frames, self.blocks = [], 0
         exc = None
+        old = signal.signal(signal.SIGALRM, _on_alarm)
+        signal.setitimer(signal.ITIMER_REAL, WATCHDOG_S)
         try:
             self.call(bytes(chunk))
         except Exception as e:  # observation, never a harness crash
             exc = type(e).__name__
+        except Hang:
+            exc = "Hang(receive callback did not return within %gs)" % WATCHDOG_S
+            HANGS[self.st.target] = HANGS.get(self.st.target, 0) + 1
+        finally:
+            signal.setitimer(signal.ITIMER_REAL, 0)
+            signal.signal(signal.SIGALRM, old)
         try:
             rest = self.rest()
         except Exception as e:
@@ -847,6 +869,9 @@ def evaluate(ctx, path, spec, st, cases, answers):
     for (kind, cuts), ans in zip(cases, answers[head:]):
         case = {"target": st.target, "spec": _public(spec), "rng_path": list(path), "cuts": cuts,
                 "stream_len": len(st.wire), "probe_at": n}
+        if HANGS.get(st.target, 0) >= 3 and ctx.failures:
+            ctx.note("skipped-after-hang:" + st.target)     # failing inputs already recorded
+            continue
         trace, up = run_real(st, [] if cuts is None else cuts + [n])
         cuts = cuts or []
         where = [st.classify(c) for c in cuts]
@@ -924,6 +949,7 @@ def _clip(up):
 
 def run(ctx):
     logging.getLogger("pyatv").setLevel(100)
+    HANGS.clear()
     rng = ctx.rng
     work, lines = [], []
     for i, spec in enumerate(specs(ctx, rng.fork("specs"))):
